@@ -70,18 +70,29 @@ fn raw_status(o: &Outcome) -> String {
     match o { Outcome::Solution(s) => s.status.clone(), _ => "unknown".into() }
 }
 
+/// how the options reach the solver: the `MilpOptions` struct of `solve_milp_lp_problem_with`, or the builder methods
+/// `Microlp::new().with_mip_gap(..).with_time_limit(..)` + `Solver::solve`
+#[derive(Clone, Copy, PartialEq)]
+pub enum Entry { Direct, Builder }
+
 fn one(lm: &LinearModel, lms: &str, base: &Outcome, gap: (Option<f64>, &str), limit: Option<u64>, fam: &str, fixed: bool, out: &mut Vec<Case>) {
+    one_entry(Entry::Direct, lm, lms, base, gap, limit, fam, fixed, out);
+}
+
+fn one_entry(entry: Entry, lm: &LinearModel, lms: &str, base: &Outcome, gap: (Option<f64>, &str), limit: Option<u64>, fam: &str, fixed: bool, out: &mut Vec<Case>) {
+    let kind = if entry == Entry::Direct { SolverKind::Milp } else { SolverKind::BuilderMicrolp };
     let opts = Opts { time_limit_ns: limit, mip_gap_bits: gap.0.map(f64::to_bits), simplex_limit: 0 };
     // the raw answer of microlp is reproducible only when the clock plays no role
-    let deterministic = matches!(limit, None | Some(0));
-    let mut o = child::solve(SolverKind::Milp, lm, &opts, TIMEOUT);
+    // (a limit of a second or more never fires on these models)
+    let deterministic = matches!(limit, None | Some(0)) || limit.map_or(false, |l| l >= 1_000_000_000);
+    let mut o = child::solve(kind, lm, &opts, TIMEOUT);
     let mut raw = child::solve(SolverKind::RawMilp, lm, &opts, TIMEOUT);
     if !deterministic {
         // the mirror call is evidence for the root cause only if the clock hit both calls alike: when the limit changed
         // rooc's answer but the mirror finished, try again
         for _ in 0..5 {
             if gen_lp::result(&o) == gen_lp::result(base) || raw_status(&raw) != "optimal" { break; }
-            o = child::solve(SolverKind::Milp, lm, &opts, TIMEOUT);
+            o = child::solve(kind, lm, &opts, TIMEOUT);
             raw = child::solve(SolverKind::RawMilp, lm, &opts, TIMEOUT);
         }
     }
@@ -90,12 +101,17 @@ fn one(lm: &LinearModel, lms: &str, base: &Outcome, gap: (Option<f64>, &str), li
     c.imp = res.clone();
     if deterministic && !matches!(o, Outcome::Hang) {
         if let Some(raw) = gen_lp::mlp(&raw) {
-            c.req = format!("{} {} {} {} {}", if fixed { "milp-with-fixed" } else { "milp-with" }, lms, enc_gap(gap.0), enc_limit(limit), raw);
+            let name = match (entry, fixed) {
+                (Entry::Direct, true) => "milp-with-fixed", (Entry::Direct, false) => "milp-with",
+                (Entry::Builder, true) => "builder-microlp-fixed", (Entry::Builder, false) => "builder-microlp",
+            };
+            c.req = format!("{} {} {} {} {}", name, lms, enc_gap(gap.0), enc_limit(limit), raw);
         }
     }
     c.oracle = format!("label {} {} {} {} {} {}", lms, enc_gap(gap.0), enc_limit(limit), res, gen_lp::result(base), raw_status(&raw));
     let limit_tag = match limit { None => "limit-none".to_string(), Some(n) => format!("limit-{}ns", n) };
     c.tags = vec![format!("family-{}", fam), gap.1.to_string(), limit_tag,
+        if entry == Entry::Direct { "entry-milp-options".into() } else { "entry-builder-microlp".into() },
         format!("microlp-status-{}", raw_status(&raw)),
         if fixed { "wrapper-reads-status".into() } else { "wrapper-ignores-status".into() },
         match &o {
@@ -105,7 +121,8 @@ fn one(lm: &LinearModel, lms: &str, base: &Outcome, gap: (Option<f64>, &str), li
             Outcome::Hang => "answer-hang".into(),
         }];
     c.nontrivial = limit.is_some() || gap.0.is_some();
-    c.show = format!("solve_milp_lp_problem_with(gap {:?}, time_limit {:?} ns) on: {}", gap.0, limit, show_model(lm));
+    c.show = if entry == Entry::Direct { format!("solve_milp_lp_problem_with(gap {:?}, time_limit {:?} ns) on: {}", gap.0, limit, show_model(lm)) }
+             else { format!("Microlp::new().with_mip_gap({:?}).with_time_limit({:?} ns).solve on: {}", gap.0, limit, show_model(lm)) };
     out.push(c);
 }
 
@@ -127,11 +144,30 @@ pub fn generate(seed: u64, n: usize, _thorough: bool, _corpus: Option<&str>) -> 
         let lms = sx::lin_model(lm);
         let base = child::solve(SolverKind::Milp, lm, &Opts::default(), TIMEOUT);
         for l in LIMITS { one(lm, &lms, &base, gaps[0], l, fam, fixed, &mut cases); }
-        for g in &gaps[1..] { one(lm, &lms, &base, *g, None, fam, fixed, &mut cases); }
+        for g in &gaps[1..] {
+            one(lm, &lms, &base, *g, None, fam, fixed, &mut cases);
+            one_entry(Entry::Builder, lm, &lms, &base, *g, None, fam, fixed, &mut cases);
+        }
+        one_entry(Entry::Builder, lm, &lms, &base, gaps[0], None, fam, fixed, &mut cases);
+        one_entry(Entry::Builder, lm, &lms, &base, gaps[0], Some(0), fam, fixed, &mut cases);
         for _ in 0..3 {
             let g = gaps[r.below(gaps.len())];
             let l = LIMITS[1 + r.below(LIMITS.len() - 1)];
             one(lm, &lms, &base, g, l, fam, fixed, &mut cases);
+            one_entry(Entry::Builder, lm, &lms, &base, g, l, fam, fixed, &mut cases);
+        }
+    }
+    // nearly tied optima with large coefficients: a generous limit (or no option at all) must not loosen the gap
+    let minute = Some(60_000_000_000u64);
+    for _ in 0..(n / 2).max(20) {
+        let lm = gen_lp::near_tied(&mut r);
+        let lms = sx::lin_model(&lm);
+        let base = child::solve(SolverKind::Milp, &lm, &Opts::default(), TIMEOUT);
+        for e in [Entry::Direct, Entry::Builder] {
+            one_entry(e, &lm, &lms, &base, gaps[0], None, "near-tied-large-coefficients", fixed, &mut cases);
+            one_entry(e, &lm, &lms, &base, gaps[0], minute, "near-tied-large-coefficients", fixed, &mut cases);
+            one_entry(e, &lm, &lms, &base, gaps[1], minute, "near-tied-large-coefficients", fixed, &mut cases);
+            one_entry(e, &lm, &lms, &base, gaps[2], None, "near-tied-large-coefficients", fixed, &mut cases);
         }
     }
     // searches stopped mid-way
